@@ -11,6 +11,12 @@ CLAIMED = {
          "Trusted: z3, go/ssa, engine intrinsics for bytealg/math/big (Int theory, Skolem decimal digits). Bound: strings <= 4 bytes (quick). Longer strings are outside the claim.", "5/C15"),
 }
 
+CLAIMED["C09"] = ("The real UtxoStore/TxStore functions (ScriptAddressUnspents, ExistsUtxo, insertUnminedInputs, putRawUnminedInput, fetchUnminedInputSpendTxHashes and the record codecs they use) run symbolically over a model wallet database whose content is an arbitrary valid credit (any hash, index, height, amount, maturity, class) with or without a pending spender recorded by the real writer; z3 decides that the reported spent-by-pending flag equals the existence of that record. One arbitrary stored state and one step: histories of any length reach the step through the stated record invariant.",
+         "Trusted: z3, go/ssa, the model database (entry lists, atomic transactions; not LevelDB). Bound: one coin, one wallet, <=3 pending spenders per outpoint. Not yet covered: settle/conflict/rollback steps (DESIGN 5/C09 T2).", "5/C09")
+
+CLAIMED["C02"] = ("The selection and fee-share kernels of transaction creation (optOutputs, topKSelector.submit/adjust/Items, maybeSubtractFeeFromAmounts) are executed symbolically for every multiset of up to 4 coin amounts, every target, every fee and every subset of fee-bearing recipients and compared by z3 with their specifications (duplicate-free subset, reported sum = sum of selection, sufficient whenever funds suffice, equal rounded-up shares, conservation of the total). Rare amount combinations (ties, a coin just above the target, shares exceeding an output) are exactly what sampling misses.",
+         "Trusted: z3, go/ssa, math/big as SMT integers, sort.Slice as insertion sort. Bound: <=4 coins, <=3 outputs, k<=3. Not yet covered: the fee/selection fixed point (autoConstructTxInAndChangeTxOut), the eligibility filter over the store and the manual-input path (DESIGN 5/C02 T1c/T2), so conservation of a whole built transaction is outside this claim.", "5/C02")
+
 CLAIMED["C11"] = ("The write-transaction overlay (ldb batch.Put/Delete/Get/GetNetPutsByPrefix), the store-key construction (innerKey, subBucket, joinBucketPath, isValidBucketName), the uncommitted-write iterator (batchIterator) and db.BytesPrefix are executed symbolically and compared with reference definitions (last-operation-wins list; byte-wise prefix test) for every operation sequence / key / name inside the bounds. These are the pieces on which read-your-writes, bucket isolation and ordered prefix scans rest; they are pure byte and map code, exactly what bounded symbolic execution decides for all byte values (including '_' , digits and 0xff that tests never combine).",
          "Trusted: z3, go/ssa, engine map/sort intrinsics. Not encoded: goleveldb itself (committed store, durability, iterators over committed data, atomic batch write) and the rocksdb driver; the composition of the overlay with committed data through levelBucket.Get/GetByPrefix is covered only as far as both inputs (overlay answer, store key) are verified separately.", "5/C11")
 
